@@ -35,6 +35,19 @@ class BuildError(Exception):
     pass
 
 
+LIBC_FLAGS = ["-D_GNU_SOURCE", "-fno-builtin", "-I{VERIF}/harness/libc_shadow",
+              "-DIGC_REPO_CTYPE=\"{REPO}/compat/libc/include/ctype.h\"",
+              "-include", "{VERIF}/harness/libc_protos.h", "-D__weak_alias(a,b)=",
+              "-Wno-everything"]
+
+
+def libc_units(files, extra_flags=()):
+    """Units for /repo/compat/libc sources: compiled against the host headers,
+    then symbol-prefixed igc_ (see build())."""
+    return [{"src": "R:compat/libc/" + f, "group": "igc_", "flags": LIBC_FLAGS + list(extra_flags)}
+            for f in files]
+
+
 def resolve(path):
     if path.startswith("R:"):
         return os.path.join(REPO, path[2:])
@@ -101,6 +114,29 @@ def build(prop_id, cfg, fuzz=False):
         futs = [ex.submit(compile_unit, u, outdir, san, extra) for u in units]
         for f in futs:
             objs.append(f.result())
+    # symbol-prefix groups (compat/libc objects -> igc_<name>): every global
+    # symbol *defined* in the group is renamed in all objects of the group, so
+    # their cross-calls stay inside the shim while malloc/free/sanitizer
+    # callbacks keep pointing at the host.
+    groups = {}
+    for u, o in zip(units, objs):
+        if u.get("group"):
+            groups.setdefault(u["group"], []).append(o)
+    for prefix, gobjs in groups.items():
+        r = sh(["nm", "--defined-only", "-g"] + gobjs)
+        names = set()
+        for line in r.stdout.splitlines():
+            parts = line.split()
+            if len(parts) == 3 and parts[1] in "TWDBRVC" and not parts[2].startswith(("__asan", "__ubsan", "__odr", "asan.", "__sancov")):
+                names.add(parts[2])
+        mapf = os.path.join(outdir, "redefine-%s.txt" % prefix)
+        with open(mapf, "w") as f:
+            for n in sorted(names):
+                f.write("%s %s%s\n" % (n, prefix, n))
+        for o in gobjs:
+            r = sh(["objcopy", "--redefine-syms=" + mapf, o])
+            if r.returncode != 0:
+                raise BuildError("objcopy failed on %s\n%s" % (o, r.stdout))
     exe = os.path.join(BUILD, prop_id, "fuzzer" if fuzz else "harness")
     link = [CXX] + (["-fsanitize=fuzzer,address,undefined"] if fuzz else SAN[:1]) + objs + \
         ["-o", exe] + expand_flags(cfg.get("ldflags", []))
@@ -244,6 +280,8 @@ def check_property(prop_id, tier, seed, props):
 
     known, fixed = load_known(prop_id)
     known_ids = [e["id"] for e in known]
+    # development aid only (never set by MANIFEST commands): treat extra ids as known
+    known_ids += [x for x in os.environ.get("VERIF_KNOWN_EXTRA", "").split(",") if x]
     violations = []       # (replay path, text)
     known_lines = []
     notes = []
